@@ -148,18 +148,46 @@ def value(r, depth=2, sc=scalar):
         return sc(r)
     n = 0 if r.pct() < 15 else r.between(1, 3)
     if c < 75:
-        return [value(r, depth - 1, sc) for _ in range(n)]
+        out = [value(r, depth - 1, sc) for _ in range(n)]
+        if n and r.pct() < 10:
+            t = twin(r, out)
+            if t is not None:
+                out.append(t)
+        return out
     return {key(r): value(r, depth - 1, sc) for _ in range(n)}
 
 
+TWINS = {1: [True, 1.0], True: [1, 1.0], 0: [False, 0.0], False: [0, 0.0], 2: [2.0], 3: [3.0], 5: [5.0]}
+
+
+def twin(r, items):
+    """An equal-valued but differently-typed sibling of one of the scalars (1 / True / 1.0,
+    0 / False / 0.0 ...), so that type-exactness is observable inside one container."""
+    cands = [v for v in items if isinstance(v, (bool, int, float)) and not isinstance(v, str) and v in TWINS]
+    if not cands:
+        return None
+    v = r.choice(cands)
+    opts = [t for t in TWINS[v] if type(t) is not type(v)]
+    return r.choice(opts) if opts else None
+
+
 def list_doc(r, depth=3, sc=scalar):
-    return [value(r, depth - 1, sc) for _ in range(r.between(1, 4))]
+    out = [value(r, depth - 1, sc) for _ in range(r.between(1, 4))]
+    if r.pct() < 15:
+        t = twin(r, out)
+        if t is not None:
+            out.insert(r.below(len(out) + 1), t)
+    return out
 
 
 def map_doc(r, depth=3, sc=scalar):
     d = {}
     for _ in range(r.between(1, 4)):
         d[key(r)] = value(r, depth - 1, sc)
+    if r.pct() < 15:
+        t = twin(r, list(d.values()))
+        if t is not None:
+            d[r.choice(["tw", "b", "z"])] = t
     return d
 
 
